@@ -264,13 +264,14 @@ static int cdf_args(struct cdf_prm *p) {
   nc = parse_bits_list(h_arg("c"), &c); for (i = 0; i < 2; i++) p->c[i] = i < nc ? c[i] : 0.; free(c);
   return 1;
 }
+static double h_identity(double p, void *params) { (void) params; return p; }
 static uint64_t canon_bits(double d) { uint64_t u; if (d != d) return 0x7ff8000000000000ULL; memcpy(&u, &d, 8); return u; }
 /* run a plot function into a temporary file and count what it printed: rows of the first and second data set, sum of the second
  * column of the first data set (counts), and the last second-column value of the first data set */
 static void plot_table(int surv) {
   FILE *fp = tmpfile(); char line[256]; int set = 0, rows[2] = {0, 0}, nsets = 0; double sum = 0., last = 0., a, b; int st;
   if (!fp) { h_out("esys"); return; }
-  st = surv ? esl_histogram_PlotSurvival(fp, H) : esl_histogram_Plot(fp, H);
+  st = surv == 2 ? esl_histogram_PlotQQ(fp, H, h_identity, NULL) : surv ? esl_histogram_PlotSurvival(fp, H) : esl_histogram_Plot(fp, H);
   rewind(fp);
   while (fgets(line, sizeof(line), fp)) {
     if (line[0] == '&') { set++; nsets++; continue; }
@@ -278,7 +279,10 @@ static void plot_table(int surv) {
   }
   fclose(fp);
   if (st != eslOK) { h_out("%s", h_status(st)); return; }
-  if (surv) {
+  if (surv == 2) {      /* Q-Q plot with the identity as inverse cdf: the second column is the observed cdf sum/Nc (printed with 6 decimals) */
+    if (!H->is_tailfit && H->Nc > 0 && H->Nc <= 10000 && rows[0] > 0) h_out("ok sets=%d rows1=%d rows2=%d cum=%ld", nsets, rows[0], rows[1], lround(last * (double) H->Nc));
+    else h_out("ok sets=%d rows1=%d rows2=%d cum=-", nsets, rows[0], rows[1]);
+  } else if (surv) {
     if (H->Nc > 0 && H->Nc <= 10000) h_out("ok sets=%d rows1=%d rows2=%d cum=%ld", nsets, rows[0], rows[1], lround(last * (double) H->Nc));
     else h_out("ok sets=%d rows1=%d rows2=%d cum=-", nsets, rows[0], rows[1]);
   } else h_out("ok sets=%d rows1=%d rows2=%d sum=%.0f", nsets, rows[0], rows[1], sum);
@@ -370,6 +374,7 @@ static void h_op(void)
     else h_out("%s nbins=%d G=%s Gp=%s X2=%s X2p=%s", h_status(st), nbins, bits6(0, G), bits6(1, Gp), bits6(2, X2), bits6(3, X2p));
   } else if (!strcmp(op, "hplot")) { plot_table(0);
   } else if (!strcmp(op, "hplotsurv")) { plot_table(1);
+  } else if (!strcmp(op, "hplotqq")) { plot_table(2);
   } else h_out("bad-op");
 }
 int main(void) { return h_main(); }
